@@ -13,25 +13,49 @@
 (* A repeated base ends the statement at once with "dup".  Failed statements stay in hier     *)
 (* (they are statements of the program, wrapped in try/except TypeError when rendered) but    *)
 (* are never offered as bases again.                                                          *)
+(*                                                                                            *)
+(* Generic bases: a base is offered under every spelling in Spellings (bare, K[int], K[str],  *)
+(* K[T]) when the class is generic, and a statement may end its list with Generic[T]          *)
+(* (AllowGeneric); the merge and the duplicate test work on the origins (C3Ops).              *)
+(*                                                                                            *)
+(* Attribute histories (pytype/attribute.py _lookup_from_mro, vm store_attr on a class): a    *)
+(* class statement may define the attribute `tag` in its body (AllowDef); between and after   *)
+(* class statements Assign(c) is `Kc.tag = <new value>` on an existing class and Read(c, m)   *)
+(* reads `tag` through class c (m: "cls" Kc.tag, "old" through an instance made right after   *)
+(* the class statement, "new" Kc().tag, "all" the three of them).  defs carries which classes *)
+(* define `tag` NOW; every Read records the definition the language finds: the first class    *)
+(* of the MRO of c whose dictionary has `tag` at that moment.  hist is the program so far.    *)
 EXTENDS C3Ops, Json, TLC
 
 CONSTANTS MaxClasses,   \* number of class statements in a hierarchy
           MaxBases,     \* longest list of bases
           AllowObject,  \* BOOLEAN: `object` may be written explicitly in a list of bases
           MaxFail,      \* at most this many failing statements (MaxClasses: unrestricted)
-          Export        \* BOOLEAN: print every finished hierarchy as a CASE line
+          Export,       \* BOOLEAN: print every finished hierarchy as a CASE line
+          Spellings,    \* subset of 0..3 containing 0: spellings offered for a generic base
+          AllowGeneric, \* BOOLEAN: a statement may list Generic[T] (last)
+          AllowDef,     \* BOOLEAN: a class body may define `tag`
+          MaxEvents,    \* number of attribute events (Assign / Read) in a history
+          Modes         \* subset of {"cls", "old", "new", "all"}: how Read reads
 
 VARIABLES hier,   \* sequence of base lists, one per statement so far
           lin,    \* sequence of results [st, mro], same length as hier when pc = "idle"
           pc,     \* "idle" | "merge" | "done"
           seqs,   \* the lists still to be merged
-          res     \* the linearisation built so far (starts with the class itself)
+          res,    \* the linearisation built so far (starts with the class itself)
+          defs,   \* defs[c]: marker of `tag` in the dictionary of class c now (0: none)
+          hist    \* the program so far: class statements and attribute events, in order
 
-vars == <<hier, lin, pc, seqs, res>>
+vars == <<hier, lin, pc, seqs, res, defs, hist>>
 
 OkClasses == {c \in DOMAIN lin : lin[c].st = "ok"}
-Pool == OkClasses \cup (IF AllowObject THEN {OBJ} ELSE {})
+SpellingsOf(c) == IF GenericStmt(hier[c]) THEN Spellings ELSE {0}
+Pool == UNION {{c + 100 * s : s \in SpellingsOf(c)} : c \in OkClasses}
+        \cup (IF AllowObject THEN {OBJ} ELSE {})
 NFail == Cardinality({c \in DOMAIN lin : lin[c].st # "ok"})
+NEv == Cardinality({s \in DOMAIN hist : hist[s].op # "class"})
+Step(op, bs, d, c, m, exp, by) ==
+  [op |-> op, bases |-> bs, def |-> d, c |-> c, m |-> m, exp |-> exp, by |-> by]
 
 RECURSIVE SeqsOver(_, _)
 SeqsOver(S, n) ==    \* all sequences over S of length <= n
@@ -39,45 +63,75 @@ SeqsOver(S, n) ==    \* all sequences over S of length <= n
   ELSE LET shorter == SeqsOver(S, n - 1) IN
        shorter \cup {Append(s, x) : s \in {t \in shorter : Len(t) = n - 1}, x \in S}
 
-Init == hier = <<>> /\ lin = <<>> /\ pc = "idle" /\ seqs = <<>> /\ res = <<>>
+(* the written base lists on offer: spellings of earlier classes, optionally Generic[T] last *)
+BaseLists ==
+  LET plain == SeqsOver(Pool, MaxBases) IN
+  plain \cup (IF AllowGeneric THEN {Append(s, GEN) : s \in plain} ELSE {})
 
-DefineClass(bs) ==
+Init == /\ hier = <<>> /\ lin = <<>> /\ pc = "idle" /\ seqs = <<>> /\ res = <<>>
+        /\ defs = <<>> /\ hist = <<>>
+
+(* class statement with written bases bs; d: the body defines `tag` *)
+DefineClass(bs, d) ==
   /\ pc = "idle" /\ Len(hier) < MaxClasses
   /\ hier' = Append(hier, bs)
+  /\ hist' = Append(hist, Step("class", bs, d, 0, "", 0, 0))
   /\ IF HasDup(EffBases(bs))
        THEN /\ lin' = Append(lin, ERRDUP)
+            /\ defs' = Append(defs, 0)
             /\ UNCHANGED <<pc, seqs, res>>
        ELSE /\ pc' = "merge"
             /\ seqs' = MergeInput(lin, bs)
             /\ res' = <<Len(hier) + 1>>
+            /\ defs' = Append(defs, IF d THEN Len(hist) + 1 ELSE 0)
             /\ UNCHANGED lin
+
+(* `Kc.tag = <value with marker Len(hist)+1>` on an existing class *)
+Assign(c) ==
+  /\ pc = "idle" /\ c \in OkClasses
+  /\ defs' = [defs EXCEPT ![c] = Len(hist) + 1]
+  /\ hist' = Append(hist, Step("assign", <<>>, FALSE, c, "", 0, 0))
+  /\ UNCHANGED <<hier, lin, pc, seqs, res>>
+
+(* read `tag` through class c: answered by the first class of the MRO that defines it now *)
+Read(c, m) ==
+  /\ pc = "idle" /\ c \in OkClasses
+  /\ hist' = Append(hist, Step("read", <<>>, FALSE, c, m,
+                               ReadExp(lin[c].mro, defs), ReadBy(lin[c].mro, defs)))
+  /\ UNCHANGED <<hier, lin, pc, seqs, res, defs>>
 
 Emit ==
   /\ pc = "merge" /\ ~AllEmpty(seqs) /\ Candidates(seqs) # {}
   /\ LET x == Head(seqs[MinOf(Candidates(seqs))]) IN
        /\ res' = Append(res, x)
        /\ seqs' = Strip(seqs, x)
-  /\ UNCHANGED <<hier, lin, pc>>
+  /\ UNCHANGED <<hier, lin, pc, defs, hist>>
 
 Fail ==
   /\ pc = "merge" /\ ~AllEmpty(seqs) /\ Candidates(seqs) = {}
   /\ lin' = Append(lin, ERRORDER)
   /\ pc' = "idle" /\ seqs' = <<>> /\ res' = <<>>
-  /\ UNCHANGED hier
+  /\ defs' = [defs EXCEPT ![Len(hier)] = 0]      \* the statement raised: no class, no dictionary
+  /\ UNCHANGED <<hier, hist>>
 
 Finish ==
   /\ pc = "merge" /\ AllEmpty(seqs)
   /\ lin' = Append(lin, [st |-> "ok", mro |-> res])
   /\ pc' = "idle" /\ seqs' = <<>> /\ res' = <<>>
-  /\ UNCHANGED hier
+  /\ UNCHANGED <<hier, defs, hist>>
 
 (* single successor of a complete hierarchy, so that -simulate prints exactly one case *)
-End == pc = "idle" /\ Len(hier) = MaxClasses /\ pc' = "done" /\ UNCHANGED <<hier, lin, seqs, res>>
+End == /\ pc = "idle" /\ Len(hier) = MaxClasses /\ NEv = MaxEvents
+       /\ pc' = "done" /\ UNCHANGED <<hier, lin, seqs, res, defs, hist>>
 
+(* a history has exactly MaxEvents events, at any place after the first class statement; the *)
+(* last event is a Read (an assignment nobody reads afterwards is not observable)             *)
 Next ==
-  \/ \E bs \in SeqsOver(Pool, MaxBases) :
+  \/ \E bs \in BaseLists, d \in (IF AllowDef THEN BOOLEAN ELSE {FALSE}) :
         /\ (NFail < MaxFail \/ Statement(lin, bs).st = "ok")
-        /\ DefineClass(bs)
+        /\ DefineClass(bs, d)
+  \/ \E c \in OkClasses : NEv + 1 < MaxEvents /\ Assign(c)
+  \/ \E c \in OkClasses, m \in Modes : NEv < MaxEvents /\ Read(c, m)
   \/ Emit \/ Fail \/ Finish \/ End
 
 Spec == Init /\ [][Next]_vars
@@ -90,6 +144,10 @@ TypeOK ==
   /\ Len(hier) <= MaxClasses
   /\ Len(lin) = (IF pc = "merge" THEN Len(hier) - 1 ELSE Len(hier))
   /\ \A c \in DOMAIN lin : lin[c].st \in {"ok", "dup", "order"}
+  /\ Len(defs) = Len(hier)
+  /\ \A c \in DOMAIN defs : defs[c] \in 0 .. Len(hist)
+  /\ Len(hier) = StmtOfStep(hist, Len(hist))
+  /\ NEv <= MaxEvents
 
 (* the step machine computes the function Lin of C3Ops (which the trace module uses) *)
 MachineIsFunction == pc # "merge" => (lin = Lin(hier) /\ WellFormed(hier, lin))
@@ -118,6 +176,25 @@ LookupSane ==
       /\ \A a \in ToSet(lin[c].mro) \ {OBJ} : FirstDefiner(lin[c].mro, {a}) = a
       /\ \A d \in (1 .. Len(hier)) \ ToSet(lin[c].mro) : FirstDefiner(lin[c].mro, {d}) = 0
 
+(* the state carried along (defs) is the function of the recorded history; every recorded   *)
+(* read was answered by the first class of the MRO whose dictionary had `tag` at that moment  *)
+(* (stated on hist alone), by a class that exists, with the marker of its latest definition   *)
+HistInv ==
+  pc # "merge" =>
+    /\ \A k \in DOMAIN defs :
+          defs[k] = (IF lin[k].st = "ok" THEN MarkerAt(hist, k, Len(hist) + 1) ELSE 0)
+    /\ \A s \in DOMAIN hist : hist[s].op = "read" =>
+          LET r == hist[s]
+              m == lin[r.c].mro IN
+          /\ lin[r.c].st = "ok"
+          /\ r.by = 0 => r.exp = 0 /\ \A q \in DOMAIN m : m[q] \in {OBJ, GEN} \/ MarkerAt(hist, m[q], s) = 0
+          /\ r.by # 0 =>
+                /\ r.by \in ToSet(m) \ {OBJ, GEN}
+                /\ r.exp = MarkerAt(hist, r.by, s) /\ r.exp # 0
+                /\ \A q \in 1 .. (Pos(r.by, m) - 1) : MarkerAt(hist, m[q], s) = 0
+    /\ \A s \in DOMAIN hist : hist[s].op = "assign" => lin[hist[s].c].st = "ok"
+
 ExportInv ==
-  (Export /\ pc = "done") => PrintT(<<"CASE", ToJson([bases |-> hier, lin |-> lin])>>)
+  (Export /\ pc = "done") =>
+     PrintT(<<"CASE", ToJson([bases |-> hier, lin |-> lin, prog |-> hist])>>)
 =============================================================================
